@@ -190,6 +190,48 @@ def e2e_rules(exe, root, seed, stats):
     a.destroy()
     return problems
 
+def selection_beyond_parity(exe, root, seed, stats):
+    """nothing outside the selection is written, also when the selected stripes cannot be repaired: silent damage in
+    more blocks of a stripe than there are parities, on selected and on unselected files; fix -d / -f then may rename
+    or rewrite selected files only"""
+    rng = e2e.Rng(seed)
+    a = e2e.Arr(root, exe, ndisks=2 + rng.below(2), nparity=1, ncontent=1)
+    s = sim.Sim(a, rng.fork(), weird_names=False)
+    s.populate(3 + rng.below(2))
+    if s.sync().rc != 0:
+        a.destroy(); return []
+    lay = fx.Layout(a, fx.decode(a))
+    shared = [pos for pos, bl in lay.by_pos.items() if len(set(b['disk'] for b in bl)) >= 2]
+    if not shared:
+        a.destroy(); return []
+    damaged = set()
+    for pos in [rng.choice(sorted(shared)) for _ in range(1 + rng.below(3))]:
+        for b in lay.by_pos[pos][:2 + rng.below(2)]:
+            if fx.flip_data_block(a, rng, b): damaged.add((b['disk'], os.fsdecode(b['sub'])))
+    dsel = rng.choice(sorted(set(d for d, _ in damaged)))
+    if rng.chance(1, 2):
+        args = ['-d', dsel]; selected = lambda d, rel: d == dsel
+    else:
+        target = rng.choice(sorted(rel for d, rel in damaged if d == dsel))
+        args = ['-f', '/' + target]; selected = lambda d, rel: rel == target
+    before = a.snapshot()
+    r = a.cmd('fix', *args)
+    after = a.snapshot()
+    stats['selection_beyond'] = stats.get('selection_beyond', 0) + 1
+    problems = []
+    for key, v in before.items():
+        if v[0] != 'f' or selected(*key): continue
+        w = after.get(key)
+        if w is None or w[0] != 'f' or w[1] != v[1]:
+            problems.append(('[outside-selection] fix %s %s %s/%r, which is outside the selection (stripes with more damaged blocks than parities)' % (' '.join(args), 'removed or renamed' if w is None else 'rewrote', key[0], key[1]),
+                             '\n'.join(t for t in r.tags if t.split(':')[0] in ('status', 'fixed', 'unrecoverable', 'error'))[:2000] + '\n' + '\n'.join(s.history)))
+            break
+    extra = [k for k in after if k not in before and not selected(k[0], k[1][:-len('.unrecoverable')] if k[1].endswith('.unrecoverable') else k[1])]
+    if not problems and extra:
+        problems.append(('[outside-selection] fix %s created %s/%r outside the selection' % (' '.join(args), extra[0][0], extra[0][1]), '\n'.join(s.history)))
+    a.destroy()
+    return problems
+
 def own_files(exe, root, seed, stats):
     """the tool's own content, temporary and lock files are always skipped, wherever the configuration puts them:
     content copies in the root AND in nested sub-directories of data disks, a stale .tmp left by a crash"""
@@ -245,13 +287,15 @@ def main(tier, seed):
         chk.violation('build of /repo failed: ' + str(e)[:300], str(e), False, 'build'); chk.finish()
     stats = {'fnm': 0, 'fnm_match': 0, 'vendored_differs_from_libc': 0, 'filter': 0, 'filter_results': {}, 'e2e_files': 0, 'selection_files': 0}
     nf, nr, ne = (6000, 6000, 24) if tier == 'quick' else (80000, 80000, 200)
-    jobs = [('fnm', i) for i in range(4)] + [('flt', i) for i in range(4)] + [('e2e', i) for i in range(ne)] + [('own', i) for i in range(8 if tier == 'quick' else 60)]
+    jobs = [('fnm', i) for i in range(4)] + [('flt', i) for i in range(4)] + [('e2e', i) for i in range(ne)] + [('own', i) for i in range(8 if tier == 'quick' else 60)] + [('sel', i) for i in range(16 if tier == 'quick' else 160)]
     def job(j):
         kind, i = j
         if kind == 'fnm':
             return fnm_sweep(leaf, seed * 1000 + i, stats, nf // 4)
         if kind == 'flt':
             return filter_sweep(leaf, seed * 1000 + 100 + i, stats, nr // 4)
+        if kind == 'sel':
+            return selection_beyond_parity(exe, os.path.join(vlib.scratch(), 's%d' % i), seed * 1000 + 700 + i, stats)
         if kind == 'own':
             return own_files(exe, os.path.join(vlib.scratch(), 'o%d' % i), seed * 1000 + 600 + i, stats)
         return e2e_rules(exe, os.path.join(vlib.scratch(), 'r%d' % i), seed * 1000 + 200 + i, stats)
